@@ -62,9 +62,17 @@ def lake_build(targets: List[str], timeout: int = 1500) -> Tuple[bool, str]:
         except subprocess.TimeoutExpired:
             return False, "TIMEOUT lake build " + " ".join(targets)
     log = p.stdout + p.stderr
-    keep = [l for l in log.splitlines() if l.startswith("error") or "error:" in l or l.startswith("✖")
-            or "declaration uses `sorry`" in l or "declaration uses 'sorry'" in l]
-    return p.returncode == 0, "\n".join(keep[:60])
+    keep: List[str] = []
+    follow = 0   # an error line plus the lines that explain it (goal, `decide` residue) name the obligation that broke
+    for l in log.splitlines():
+        if (l.startswith("error") or "error:" in l or l.startswith("✖")
+                or "declaration uses `sorry`" in l or "declaration uses 'sorry'" in l):
+            keep.append(l)
+            follow = 4
+        elif follow and l.strip():
+            keep.append("    " + l[:300])
+            follow -= 1
+    return p.returncode == 0, "\n".join(keep[:80])
 
 
 DRIVER_TMPL = """/- generated: line-protocol driver for {pid} (`lake env lean --run`). One output line per input line. -/
